@@ -13,6 +13,43 @@ use std::cell::Cell;
 
 thread_local! {
     pub static OVERRUN: Cell<bool> = const { Cell::new(false) };
+    /// F-SCHED: a limit whose poll calls back into the library (a caller's `Timeout` may do
+    /// anything): the board to work on while the outer search is suspended in its poll
+    static REENTRANT: Cell<Option<Board>> = const { Cell::new(None) };
+    static IN_POLL: Cell<bool> = const { Cell::new(false) };
+}
+
+/// while alive, every 64th poll of a simulated limit generates moves, asks for a move's
+/// legality and runs a small search of its own on another engine object
+struct ReentrantPolls;
+impl ReentrantPolls {
+    fn new(b: &Board) -> ReentrantPolls {
+        REENTRANT.with(|c| c.set(Some(*b)));
+        ReentrantPolls
+    }
+}
+impl Drop for ReentrantPolls {
+    fn drop(&mut self) {
+        REENTRANT.with(|c| c.set(None));
+        IN_POLL.with(|c| c.set(false));
+    }
+}
+
+fn reentrant_poll(i: u64) {
+    if i % 64 != 5 || IN_POLL.with(|c| c.get()) {
+        return;
+    }
+    let Some(b) = REENTRANT.with(|c| c.get()) else { return };
+    IN_POLL.with(|c| c.set(true));
+    let first = b.legals().next();
+    if let Some(m) = first {
+        let _ = b.is_legal(m);
+        let _ = b.move_new(m);
+    }
+    let polls = Cell::new(0u64);
+    let t = SimTimeout { polls: &polls, k: 3, limit: 3 + SLACK };
+    let _ = Engine::default().search(&b, &ThreeFold::new(), t);
+    IN_POLL.with(|c| c.set(false));
 }
 
 #[derive(Clone, Copy)]
@@ -39,6 +76,7 @@ impl Timeout for SimTimeout<'_> {
             OVERRUN.with(|o| o.set(true));
             panic!("verif: poll budget exceeded (search ignores the expired clock)");
         }
+        reentrant_poll(i);
         i >= self.k
     }
 }
@@ -432,6 +470,12 @@ pub fn at_position(ctx: &mut Ctx, s: &Session, l1: &[Mv], game_tf: &ThreeFold) -
         }
     }
     let (tf, use_hist) = if heavy_used { (&heavy, true) } else { (tf, use_hist) };
+    let _reentrant = if mode != Prop::C13 && ctx.tape.choose(8) == 7 {
+        ctx.stats.bump("fault.sched.re-entrant-polls");
+        Some(ReentrantPolls::new(&s.board))
+    } else {
+        None
+    };
     // one engine object for every search at this position (as the plugin does for a whole
     // game), or a fresh one per search
     let _shared = if mode != Prop::C13 && ctx.tape.choose(2) == 1 {
